@@ -48,7 +48,7 @@ func c06Menu() []injCall {
 		{Name: "CheckTx(unstake V3 self stake)", Check: t(unstk("V3", "V3", "V3", 0))},
 		{Name: "CheckTx(unstake U0 delegation)", Check: t(unstk("U0", "U0", "V1", 0))},
 		{Name: "CheckTx(proposal by V1)", Check: t(prop("V1", 1, 1, 1, `{"slashRatio":"60"}`))},
-		{Name: "CheckTx(vote V1 choice 0)", Check: t(vote("V1", 0, 0))},
+		{Name: "CheckTx(vote V3 choice 0)", Check: t(vote("V3", 0, 0))},
 		{Name: "CheckTx(withdraw V0 1)", Check: t(wdr("V0", "1"))},
 		{Name: "CheckTx(transfer U0->U1 bal-fee)", Check: t(tr("U0", "U1", "bal-fee"))},
 		{Name: "CheckTx(setdoc U1)", Check: t(setdoc("U1", "mallory", "http://m"))},
@@ -99,7 +99,7 @@ func (c *c06) Meta() engine.Meta {
 		LevelName: "preemption bound P = number of injected CheckTx/Query calls",
 		Technique: "schedule exploration at ABCI-call granularity (all placements of up to P injected calls into the gaps between consensus calls) on the real application, twin oracle against the quiet replica",
 		Rule: "consensus thread: the dense 8-block history (staking, delegation, unstaking, proposal, votes, withdraw, transfers, contract deploy/call) in genesis variants g3 and g4L (4 equal validators, stake limiter live at 33%/33%); " +
-			"mempool/query thread: 23 calls (CheckTx of: a duplicate of the next / previous block transaction, staking to two delegatees, a new self-stake, three unstakings, proposal, vote, withdraw, transfer of the whole balance, setdoc, contract call, bad nonce, garbage; Query of account, delegatee, stakes, reward, proposal, gov_params, total power at height 0); " +
+			"mempool/query thread: 23 calls (CheckTx of: a duplicate of the next / previous block transaction, staking to two delegatees, a new self-stake, three unstakings, proposal, a vote by a validator that votes only later, withdraw, transfer of the whole balance, setdoc, contract call, bad nonce, garbage; Query of account, delegatee, stakes, reward, proposal, gov_params, total power at height 0); " +
 			"a schedule places the injected calls into the gaps before/after BeginBlock, after each DeliverTx, after EndBlock and after Commit (Commit itself is one ABCI call and Tendermint holds the mempool lock across it). " +
 			"P<=1: every (gap, call) pair; P=2: every pair of placements drawn from the state-touching CheckTx entries (quick: within blocks 1-6, second call in the same or one of the next 3 gaps; thorough: all entries, all gaps, second call within the next 6 gaps). " +
 			"Oracle: every DeliverTx / EndBlock / Commit response of the loaded replica equals the quiet replica's; after every Commit the mempool overlays of all seven ledgers are empty. " +
